@@ -58,13 +58,13 @@ def collect_cases(ctx, vh):
     return gen + rnd, notes
 
 
-def execute_and_judge(ctx, vh, cases, name="main", nshards=None, far=24, idbase=0):
+def execute_and_judge(ctx, vh, cases, name="main", nshards=None, far=24, idbase=0, par=1):
     d = ctx.scratch(name + "-exec")
     cp = os.path.join(d, "cases.ndjson")
     core.write_ndjson(cp, cases)
     tp = os.path.join(d, "trace.ndjson")
     core.run_vh(vh, ["sdf-exec", "-in", cp, "-out", tp, "-seed", str(ctx.seed), "-far", str(far),
-                     "-idbase", str(idbase)], timeout=1800)
+                     "-idbase", str(idbase), "-par", str(par)], timeout=1800)
     with open(tp) as f:
         raw = f.readlines()
     findings, stats = [], {}
@@ -177,6 +177,7 @@ def run_family(ctx, prefix="C19"):
         ctx.sample({"den": c["den"], "e2": c.get("e2", 0), "shape": c["shape"], "tag": c.get("tag")})
     if ctx.tier == "thorough":
         self_test(ctx, raw)
+    concurrent_pass(ctx, vh, cases, findings, prefix)
     per_sig = {}
     for f in findings:
         if f["pred"].startswith("Harness."):
@@ -203,12 +204,70 @@ def run_family(ctx, prefix="C19"):
     ]
 
 
+PAR = 8
+
+
+def concurrent_pass(ctx, vh, cases, alone, prefix):
+    """The closures of a case constructed ONCE and evaluated by PAR goroutines at the same time, lines of different
+    cases interleaved (what the marching canvas does with a field). Judged line by line like the sequential pass; a
+    line rejected only here was disturbed by another evaluation in flight. Confirmed by running the batch again."""
+    quick = ctx.tier == "quick"
+    failed = {f["id"] for f in alone}
+    ids = [i for i in range(len(cases)) if i not in failed and (not quick or i % 3 == ctx.seed % 3)]
+    batch = [cases[i] for i in ids]
+    rounds = []
+    for rnd in range(2):
+        fs, _, _ = execute_and_judge(ctx, vh, batch, name="par%d" % rnd, far=PARAMS[ctx.tier]["far"], par=PAR)
+        fs = [f for f in fs if f["pred"].startswith(prefix + ".")]
+        rounds.append(fs)
+        if not fs and rnd == 0:
+            break
+    ctx.extra["concurrent_pass"] = {"goroutines": PAR, "cases": len(batch), "rejected_lines_per_round": [len(x) for x in rounds]}
+    if not rounds[0]:
+        return
+    if not rounds[1]:
+        fs, _, _ = execute_and_judge(ctx, vh, batch, name="par2", far=PARAMS[ctx.tier]["far"], par=PAR)
+        fs = [f for f in fs if f["pred"].startswith(prefix + ".")]
+        if not fs:
+            raise core.Infra("a rejection under concurrent evaluation was seen once in 3 rounds and not again")
+        rounds.append(fs)
+    seen = {}
+    for fs in rounds:
+        for f in fs:
+            case = batch[f["id"]]
+            seen.setdefault("%s/%s/concurrent" % (f["pred"], discriminator(case["shape"])), (f, case))
+    for sig, (f, case) in sorted(seen.items())[:4]:
+        what = ("%s rejected block %d of den=%d e2=%d shape %s when %d goroutines evaluated shared closures at the same time "
+                "(rejected in %d of %d rounds; evaluated alone the case is accepted)" %
+                (f["pred"], f["blk"], case["den"], case.get("e2", 0), json.dumps(case["shape"])[:300], PAR,
+                 sum(1 for x in rounds if x), len(rounds)))
+        ctx.violation(sig, what, {"family": "sdf", "concurrent": True,
+                                  "case": {k: case.get(k, 0) for k in ("k", "den", "e2", "shape", "lat")},
+                                  "seed": ctx.seed, "far": PARAMS[ctx.tier]["far"], "id": 0})
+
+
 def replay_family(ctx, path, prefix="C19"):
     with open(path) as f:
         obj = json.load(f)
     c = obj["case"]
     ctx.seed = int(c.get("seed", ctx.seed))
     vh = core.build_vh()
+    if c.get("concurrent"):
+        # the recorded case 200 times over, its closures shared by PAR goroutines; up to 4 rounds
+        findings = []
+        for rnd in range(4):
+            findings, stats, raw = execute_and_judge(ctx, vh, [c["case"]] * 200, name="replay%d" % rnd, nshards=4,
+                                                     far=int(c.get("far", 24)), par=PAR)
+            findings = [f for f in findings if f["pred"].startswith(prefix + ".")]
+            if findings:
+                break
+        for f in findings[:3]:
+            print("replay (concurrent): %s rejected block %d" % (f["pred"], f["blk"]))
+            ctx.violation("%s/%s/concurrent" % (f["pred"], discriminator(c["case"]["shape"])), "replayed", c)
+        ctx.rule = "replay of one recorded case under concurrent evaluation"
+        ctx.nontrivial = 1
+        ctx.sample({"replayed": path})
+        return
     findings, stats, raw = execute_and_judge(ctx, vh, [c["case"]], name="replay", nshards=2, far=int(c.get("far", 24)),
                                              idbase=int(c.get("id", 0)))
     idx = 0
